@@ -2265,6 +2265,15 @@ func (d *Data) newLabel(v dvid.VersionID) (uint64, error) {
 	d.mlMu.Lock()
 	defer d.mlMu.Unlock()
 
+	// The label space is 64 bits: refuse to wrap the counter around to the background label.
+	last := d.MaxRepoLabel
+	if d.NextLabel != 0 {
+		last = d.NextLabel
+	}
+	if last == math.MaxUint64 {
+		return 0, fmt.Errorf("cannot issue a new label after label %d: no 64-bit label left", last)
+	}
+
 	// Increment and store if we don't have an ephemeral new label start ID.
 	if d.NextLabel != 0 {
 		d.NextLabel++
